@@ -89,6 +89,7 @@ type Kernel struct {
 	burstArrived int32
 	plan         []ParkSpec
 	armed        map[string]bool
+	noParks      bool
 	pcount       map[string]int
 	settling     bool
 	viol         *Violation
@@ -351,6 +352,15 @@ func (k *Kernel) ArmNext(point string) {
 	k.mu.Unlock()
 }
 
+// HoldParks makes every yield pass until the next quiescence (Quiesce clears it): used by a
+// scenario for a stretch in which the root goroutine cannot act, because a goroutine of the
+// driver waits on a mutex, which the bubble does not count as idle.
+func (k *Kernel) HoldParks() {
+	k.mu.Lock()
+	k.noParks = true
+	k.mu.Unlock()
+}
+
 // DrawPlan draws a park plan from the tape: depth 0..maxDepth (0 = none), each entry a
 // point from points and an occurrence number 1..maxNth.
 func (k *Kernel) DrawPlan(points []string, maxDepth, maxNth int) []ParkSpec {
@@ -387,6 +397,10 @@ func (k *Kernel) Yield(point, ident string) {
 			}
 		}
 	}
+	if match && k.noParks {
+		k.probes["park.skipped.root-cannot-act"]++
+		match = false
+	}
 	if !match {
 		k.mu.Unlock()
 		return
@@ -416,6 +430,9 @@ func (k *Kernel) Quiesce() {
 	d := time.Duration(1000+k.deltaRng.Intn(997)) * time.Nanosecond
 	time.Sleep(d)
 	synctest.Wait()
+	k.mu.Lock()
+	k.noParks = false
+	k.mu.Unlock()
 	if k.Progress != nil {
 		atomic.AddInt64(k.Progress, 1)
 	}
